@@ -208,9 +208,10 @@ func projectSlice(ctx Context, doc bsonkit.Doc, _, path string, v interface{}) e
 				start = n
 			}
 		}
-		end := start + limit
-		if end > n {
-			end = n
+		// compute end without overflowing for huge limits
+		end := n
+		if limit < n-start {
+			end = start + limit
 		}
 		state.merge[path] = append(bson.A{}, array[start:end]...)
 		return nil
@@ -225,9 +226,9 @@ func projectSlice(ctx Context, doc bsonkit.Doc, _, path string, v interface{}) e
 			state.merge[path] = array
 		}
 	case limit < 0:
-		n := -limit
-		if n < len(array) {
-			state.merge[path] = array[len(array)-n:]
+		// compare without negating: -limit overflows for the smallest int
+		if limit > -len(array) {
+			state.merge[path] = array[len(array)+limit:]
 		} else {
 			state.merge[path] = array
 		}
